@@ -73,6 +73,48 @@ def gen_dp(rng, n_extra):
     return ms
 
 
+MV_CRITERIA = ['bar', 'baz', 'mem', 'gc_time', 'c_1']
+MV_UNITS = ['ms', 'kbyte', 'kerf', 'n']
+
+
+def gen_mv_dp(rng):
+    """one counted data point of the Multivariate adapter (`0:RESULT-...`): the total stands anywhere, values
+    are plain decimals or integers (an integer is written with "%s")"""
+    ms = []
+    for _ in range(rng.randint(0, 3)):
+        v = rng.choice([float(rng.randint(0, 9999)) / rng.choice([1, 2, 4, 8, 10, 100]), rng.randint(0, 10 ** 6)])
+        ms.append((rng.choice(MV_CRITERIA), rng.choice(MV_UNITS), v))
+    ms.insert(rng.randint(0, len(ms)), ('total', 'ms', float(rng.randint(1, 99999)) / rng.choice([1, 2, 8, 10, 1000])))
+    return ms
+
+
+def render_multivariate(dps):
+    out = []
+    for j, ms in enumerate(dps):
+        for (crit, unit, v) in ms:
+            text = repr(v)
+            assert 'e' not in text and not text.startswith('-'), text
+            if crit == 'total':
+                out.append('%d:RESULT-total: %s' % (j, text))
+            else:
+                out.append('%d:RESULT-%s:%s: %s' % (j, crit, unit, text))
+    return '\n'.join(out) + '\n'
+
+
+def render_output(run, dps, trailing=None):
+    if run.get('adapter') == 'Multivariate':
+        return render_multivariate(dps)
+    text = render_rebench_log(run['bench_name'], dps)
+    for (crit, unit, v) in (trailing or []):      # criteria printed after the last run time belong to no data point
+        text += '%s: %s: %s%s\n' % (run['bench_name'], crit, num_text(v), unit)
+    return text
+
+
+def written_order(ms):
+    """a data point is written with its total last"""
+    return [m for m in ms if m[0] != 'total'] + [m for m in ms if m[0] == 'total']
+
+
 def render_rebench_log(bench, dps):
     out = []
     for ms in dps:
@@ -124,24 +166,24 @@ def gen_config(rng, opts=None):
             name = 'B%d%d' % (s, b)
             det = {}
             if rng.random() < 0.3:
-                det['extra_args'] = rng.choice(['x', '7', 'a b', 6, 2.5])
+                det['extra_args'] = rng.choice(['x', '7', 'a b', 6, 2.5, '--mode\tfast', 'trail  ', 'ünï'])
             if rng.random() < 0.2:
                 det['warmup'] = rng.randint(0, 3)
             if rng.random() < 0.2:
                 det['invocations'] = rng.randint(1, o['max_inv'])
             benches.append({name: det} if det else name)
-        su = {'gauge_adapter': 'RebenchLog',
+        su = {'gauge_adapter': 'Multivariate' if (not o['profile'] and rng.random() < 0.15) else 'RebenchLog',
               'command': '%(benchmark)s c%(cores)s i%(input)s v%(variable)s t%(tag)s w%(warmup)s n%(invocation)s',
               'benchmarks': benches}
         # variable values include the falsy ones: 0, 0.0, False (a run with input size 0 is a run like any other)
         if rng.random() < 0.5:
-            su['input_sizes'] = rng.choice([[1], [1, 2], ['s', 'l'], [0, 10], [0], [0.0, 2.5]])
+            su['input_sizes'] = rng.choice([[1], [1, 2], ['s', 'l'], [0, 10], [0], [0.0, 2.5], ['a\tb', 'c'], ['ü', 'x ']])
         if rng.random() < 0.3:
             su['cores'] = rng.choice([[1], [1, 4], [2], [0], [0, 2]])
         if rng.random() < 0.3:
-            su['variable_values'] = rng.choice([['a'], ['a', 'b'], [0, 1], [False, 'x'], [0]])
+            su['variable_values'] = rng.choice([['a'], ['a', 'b'], [0, 1], [False, 'x'], [0], ['v\tw'], [' lead', 'trail ']])
         if rng.random() < 0.2:
-            su['tags'] = rng.choice([['t1'], ['t1', 't2']])
+            su['tags'] = rng.choice([['t1'], ['t1', 't2'], ['t\t1', 'plain'], ['zeta', 'alpha', 'Mid']])
         if rng.random() < 0.6:
             su['warmup'] = rng.randint(0, 3)
         if rng.random() < 0.5:
@@ -259,11 +301,14 @@ class Probe(object):
                 'rd_invocations': run.benchmark.run_details.invocations,
                 'rd_warmup': run.benchmark.run_details.warmup,
                 'ignore_timeouts': bool(run.ignore_timeouts),
+                'adapter': run.get_gauge_adapter_name() if not run.is_profiling() else 'Perf',
                 'variables': run.benchmark.variables.as_dict(),
             })
         self.by_cols = {}
+        self.by_joined = {}      # the run columns as they stand in a data line (a column may contain a tab)
         for i, r in enumerate(self.runs):
             self.by_cols.setdefault(tuple(r['cols']), []).append(i)
+            self.by_joined.setdefault('\t'.join(r['cols']), []).append(i)
 
     def run_index_of_cmd(self, cmdline_template):
         for i, r in enumerate(self.runs):
@@ -335,6 +380,8 @@ def gen_outputs(rng, probe, fail_rate=0.15):
                 per.append(None)
             elif r['profile']:
                 per.append([[('total', '', 0.0)]])
+            elif r.get('adapter') == 'Multivariate':
+                per.append([gen_mv_dp(rng)])
             else:
                 per.append([gen_dp(rng, n_extra) for _ in range(n_dp)])
         table.append(per)
@@ -355,6 +402,9 @@ def build_raw(rng, probe, outputs):
         for o in per:
             if o is not None:
                 row.append({'rc': 0, 'dps': o})
+                if probe.runs[i].get('adapter') == 'RebenchLog' and rng.random() < 0.15:
+                    row[-1]['trailing'] = [(rng.choice(CRITERIA[:6]), rng.choice(UNITS), gen_value(rng))
+                                           for _ in range(rng.randint(1, 2))]
             elif probe.runs[i]['profile']:
                 row.append({'rc': rng.choice([1, -9]), 'dps': [[('total', '', 0.0)]]})   # perf ignores the output
             else:
@@ -363,6 +413,8 @@ def build_raw(rng, probe, outputs):
                     row.append({'rc': 1, 'dps': []})
                 elif style == 'garbage':
                     row.append({'rc': 0, 'dps': []})
+                elif probe.runs[i].get('adapter') == 'Multivariate':
+                    row.append({'rc': int(style.split(':')[1]), 'dps': [[('bar', 'ms', 7.5), ('total', 'ms', 8.5)]]})
                 else:
                     row.append({'rc': int(style.split(':')[1]), 'dps': [list(d) for d in CRASH_DPS]})
         raw.append(row)
@@ -403,7 +455,7 @@ def make_script(probe, outputs, build_ok, stop=None, log=None, fail_style=None, 
                 return drive.Outcome(ro['rc'], '')
             if not ro['dps']:
                 return drive.Outcome(ro['rc'], 'nothing to see here\n' if ro['rc'] == 0 else 'boom\n')
-            return drive.Outcome(ro['rc'], render_rebench_log(probe.runs[c[1]]['bench_name'], ro['dps']))
+            return drive.Outcome(ro['rc'], render_output(probe.runs[c[1]], ro['dps'], ro.get('trailing')))
         o = outputs[c[1]][c[2] - 1] if c[2] - 1 < len(outputs[c[1]]) else None
         if o is None:
             style = (fail_style or {}).get((c[1], c[2]), 'rc')
@@ -587,18 +639,18 @@ def canon_lines(text, probe, profile_file=False):
             cols = line.split('\t')
             if profile_file:
                 # invocation, num_iterations, 9 run columns, run id, json
-                if len(cols) == 13:
-                    ks = probe.by_cols.get(tuple(cols[2:11]), [])
-                    out.append(['M', int(cols[0]), 1, '0.000000' if cols[12] == PERF_JSON else cols[12], '', 'total',
-                                ks[0] if len(ks) == 1 else -1, int(cols[11])])
+                if len(cols) >= 13 and cols[-2].isdigit():
+                    ks = probe.by_joined.get('\t'.join(cols[2:-2]), [])
+                    out.append(['M', int(cols[0]), 1, '0.000000' if cols[-1] == PERF_JSON else cols[-1], '', 'total',
+                                ks[0] if len(ks) == 1 else -1, int(cols[-2])])
                     meta.append(('P', int(cols[1]), ks[0] if len(ks) == 1 else -1))
                 else:
                     out.append(['?', 'profile-cols:%d' % len(cols)])
-            elif len(cols) == 15:
-                ks = probe.by_cols.get(tuple(cols[5:14]), [])
+            elif len(cols) >= 15 and probe.by_joined.get('\t'.join(cols[5:-1])):
+                ks = probe.by_joined.get('\t'.join(cols[5:-1]), [])
                 try:
                     out.append(['M', int(cols[0]), int(cols[1]), cols[2], cols[3], cols[4],
-                                ks[0] if len(ks) == 1 else -1, int(cols[14])])
+                                ks[0] if len(ks) == 1 else -1, int(cols[-1])])
                 except ValueError:
                     out.append(['?', 'cols:' + line[:60]])
             else:
@@ -649,6 +701,7 @@ def scenario_op(op, probe, outputs, build_ok, specs, rt_k=None, rt_b=None):
         'ignoreTimeouts': [bool(r.get('ignore_timeouts')) for r in probe.runs],
         'buildOk': list(build_ok),
         'sessions': [{'sched': s['sched'], 'order': s['order'], 'choices': s.get('choices', []),
+                      'clean': bool(s.get('clean')),
                       **({'stop': s['stop']} if s.get('stop') is not None else {})} for s in specs],
         **({'rtK': rt_k} if rt_k is not None else {}), **({'rtB': rt_b} if rt_b is not None else {}),
     }
